@@ -1,9 +1,292 @@
-//! C02 — not implemented yet.
-use crate::util::{Args, Out};
+//! C02 — the core language follows the stated semantics: generated well-typed
+//! programs are run on both back ends and compared, sample by sample and bit by
+//! bit, with the reference interpreter.
+
+use super::{drive, replay_one};
+use crate::gens::core::{Feat, Program, generate};
+use crate::refsem;
+use crate::run::{Backend, RunError, run_program};
+use crate::util::{Args, Out, Rng, bits_eq, f64s_to_json, splitmix};
+use serde::{Deserialize, Serialize};
 use serde_json::{Value, json};
 
-pub fn meta(_args: &Args) -> Value {
-    json!({"level": "exploration", "rule": "not implemented", "floor": {"quick": 1000000, "thorough": 1000000}})
+#[derive(Clone, Debug, Serialize, Deserialize)]
+pub struct Case {
+    pub src: String,
+    pub n: usize,
+    #[serde(default)]
+    pub input_seed: u64,
+    #[serde(default = "yes")]
+    pub finite_inputs: bool,
+    /// generated programs carry their G-AST (the reference interpreter runs on it)
+    #[serde(default)]
+    pub prog: Option<Program>,
+    /// hand-written witnesses carry the expected output stream instead
+    /// (flattened [sample][channel], as strings so that NaN / -0.0 / inf can be written)
+    #[serde(default)]
+    pub expect: Option<Vec<String>>,
 }
-pub fn run(_args: &Args, _out: &mut Out) {}
-pub fn replay(_args: &Args, _out: &mut Out, _case: &Value) {}
+fn yes() -> bool {
+    true
+}
+
+const PALETTE: [f64; 16] =
+    [0.0, 1.0, -1.0, 0.5, -0.5, 2.0, 3.0, 0.25, 10.0, -3.5, 0.1, 7.0, 100.0, -0.75, 1e-3, 4.0];
+const NASTY: [f64; 8] = [f64::NAN, f64::INFINITY, f64::NEG_INFINITY, -0.0, 1e308, 5e-324, -1e308, 1e16];
+
+pub fn input_fn(seed: u64, finite: bool) -> impl Fn(usize, usize) -> f64 {
+    move |t: usize, c: usize| {
+        let mut s = seed ^ ((t as u64) << 8) ^ (c as u64).wrapping_mul(0x9E37_79B9);
+        let r = splitmix(&mut s);
+        if !finite && r % 7 == 0 {
+            return NASTY[(r >> 8) as usize % NASTY.len()];
+        }
+        match r % 4 {
+            0 => PALETTE[(r >> 8) as usize % PALETTE.len()],
+            1 => ((r >> 8) % 2001) as f64 / 1000.0 - 1.0,
+            2 => (t as f64) * 0.5 - c as f64,
+            _ => ((r >> 8) % 17) as f64 - 8.0,
+        }
+    }
+}
+
+pub fn feat_for(args: &Args, rng: &mut Rng) -> Feat {
+    let budget = if args.thorough() { 10 + rng.below(30) } else { 6 + rng.below(14) };
+    let mut f = Feat::all(budget);
+    f.max_fns = if args.thorough() { 2 + rng.below(8) } else { 1 + rng.below(5) };
+    f.max_state_depth = 1 + rng.below(4);
+    // individually switch some features off so that failures localise
+    if rng.chance(1, 4) {
+        f.lambdas = false;
+        f.escaping_closures = false;
+    }
+    if rng.chance(1, 4) {
+        f.records = false;
+    }
+    if rng.chance(1, 5) {
+        f.tuples = false;
+        f.self_tuple = false;
+    }
+    if rng.chance(1, 3) {
+        f.defaults = false;
+    }
+    f.defaults_dotdot = !args.q("default-args-dotdot") && rng.chance(1, 3);
+    f.branch_state = !args.q("stateful-call-in-branch") && rng.chance(1, 4);
+    f.raw_logic = false;
+    if args.q("modulo") {
+        f.modulo = false;
+    }
+    f.avoid = args.quarantine.iter().cloned().collect();
+    f
+}
+
+pub struct Checked {
+    pub violations: Vec<(String, String)>,
+    pub nontrivial: bool,
+    pub unspecified: Vec<&'static str>,
+    pub inconclusive: Option<String>,
+    pub samples_compared: usize,
+    pub ran: Vec<&'static str>,
+}
+
+/// The oracle: reference vs VM vs WASM. Pure (no event output) so that the minimiser can call it.
+pub fn check(c: &Case) -> Checked {
+    let mut res = Checked { violations: vec![], nontrivial: false, unspecified: vec![], inconclusive: None, samples_compared: 0, ran: vec![] };
+    let inp = input_fn(c.input_seed, c.finite_inputs);
+    let (want, flags) = match (&c.prog, &c.expect) {
+        (Some(prog), _) => match refsem::run(prog, c.n, &inp) {
+            Ok(r) => r,
+            Err(e) => {
+                res.inconclusive = Some(format!("reference interpreter: {e:?}"));
+                return res;
+            }
+        },
+        (None, Some(exp)) => {
+            let v: Option<Vec<f64>> = exp.iter().map(|s| s.trim().parse::<f64>().ok()).collect();
+            match v {
+                Some(v) => (v, Default::default()),
+                None => {
+                    res.inconclusive = Some("unparsable `expect` in witness".into());
+                    return res;
+                }
+            }
+        }
+        (None, None) => {
+            res.inconclusive = Some("case has neither prog nor expect".into());
+            return res;
+        }
+    };
+    // shapes of evaluation the statement of C02 does not define
+    res.unspecified = flags
+        .iter()
+        .filter(|f| matches!(**f, "nan_condition" | "logic_on_negative_or_nan_operand" | "not_on_nan" | "delay_time_outside_1_to_n_minus_1"))
+        .copied()
+        .collect();
+    if !res.unspecified.is_empty() {
+        return res;
+    }
+    let first = want.first().copied().unwrap_or(0.0);
+    let varies = want.iter().any(|x| !bits_eq(*x, first));
+    let mut both_ran = true;
+    for b in [Backend::Vm, Backend::Wasm] {
+        match run_program(b, &c.src, false, c.n, &inp, false, None) {
+            Ok(r) => {
+                res.ran.push(b.name());
+                res.samples_compared += r.out.len().min(want.len());
+                if r.out.len() != want.len() {
+                    res.violations.push((
+                        format!("channel-count/{}", b.name()),
+                        format!("{} produced {} words for {} samples, reference {}", b.name(), r.out.len(), c.n, want.len()),
+                    ));
+                    continue;
+                }
+                if let Some(i) = (0..want.len()).find(|&i| !bits_eq(want[i], r.out[i])) {
+                    let ch = r.channels.max(1);
+                    let lo = i.saturating_sub(2 * ch);
+                    let class = if flags.contains("modulo_non_integer_operand") { "/modulo-non-integer" } else { "" };
+                    res.violations.push((
+                        format!("output-differs-from-reference/{}{}", b.name(), class),
+                        format!(
+                            "sample {} channel {}: {} = {:?} reference = {:?}; window {} = {} vs reference {}; flags {:?}",
+                            i / ch, i % ch, b.name(), r.out[i], want[i], b.name(),
+                            f64s_to_json(&r.out[lo..(i + 1).min(r.out.len())]),
+                            f64s_to_json(&want[lo..(i + 1).min(want.len())]),
+                            flags
+                        ),
+                    ));
+                }
+            }
+            Err(RunError::Build(be)) => {
+                both_ran = false;
+                let sig = match &be {
+                    crate::run::BuildError::Rejected(d) => {
+                        format!("well-typed-program-rejected/{}: {}", b.name(), d.first().map(|d| norm(&d.message)).unwrap_or_default())
+                    }
+                    crate::run::BuildError::Panicked(ph, p) => format!("{}/{}/{}", p.sig(), ph, b.name()),
+                    other => format!("build-failed/{}: {}", b.name(), norm(&other.short())),
+                };
+                res.violations.push((sig, be.short()));
+            }
+            Err(RunError::DspPanic(t, p)) => {
+                both_ran = false;
+                res.violations.push((format!("{}/dsp/{}", p.sig(), b.name()), format!("at sample {t}: {} @ {}", p.msg, p.loc)));
+            }
+        }
+    }
+    res.nontrivial = varies && both_ran;
+    res
+}
+
+/// Minimise a failing case for one signature.
+pub fn minimise(c: &Case, sig: &str, max_evals: usize) -> Case {
+    let mut best = c.clone();
+    for n in [2usize, 4, 8, 16] {
+        if n < best.n {
+            let mut t = best.clone();
+            t.n = n;
+            if check(&t).violations.iter().any(|v| v.0 == sig) {
+                best = t;
+                break;
+            }
+        }
+    }
+    let Some(prog0) = best.prog.clone() else { return best };
+    let base = best.clone();
+    let mut pred = |p: &Program| {
+        if !crate::gens::tycheck::well_typed(p) {
+            return false;
+        }
+        let t = Case { src: p.print(), prog: Some(p.clone()), ..base.clone() };
+        check(&t).violations.iter().any(|v| v.0 == sig)
+    };
+    let small = crate::gens::shrink::shrink(&prog0, &mut pred, max_evals);
+    best.src = small.print();
+    best.prog = Some(small);
+    best
+}
+
+fn exec(c: &Case, idx: usize, out: &mut Out) -> bool {
+    if let Some(p) = &c.prog
+        && !crate::gens::tycheck::well_typed(p)
+    {
+        out.inconclusive(idx, "generator produced a program its own type checker rejects");
+        return false;
+    }
+    let r = check(c);
+    if let Some(w) = &r.inconclusive {
+        out.inconclusive(idx, w);
+        return false;
+    }
+    for f in c.prog.iter().flat_map(|p| p.features.iter()) {
+        out.count(&format!("feature:{f}"), 1);
+    }
+    for f in &r.unspecified {
+        out.count(&format!("unspecified:{f}"), 1);
+    }
+    for b in &r.ran {
+        out.count(&format!("runs:{b}"), 1);
+    }
+    out.count("samples_compared", r.samples_compared as u64);
+    for (sig, detail) in &r.violations {
+        let key = format!("violations:{sig}");
+        let seen = out.counters.get(&key).copied().unwrap_or(0);
+        out.count(&key, 1);
+        if seen == 0 {
+            // first hit of this signature in this worker: report the minimised program
+            let small = minimise(c, sig, 400);
+            let d2 = check(&small).violations.into_iter().find(|v| &v.0 == sig).map(|v| v.1).unwrap_or(detail.clone());
+            out.violation(idx, sig, &format!("{d2}\n(minimised from a {}-byte program)", c.src.len()), &serde_json::to_value(&small).unwrap());
+        } else if seen < 4 {
+            out.violation(idx, sig, detail, &serde_json::to_value(c).unwrap());
+        }
+    }
+    r.nontrivial
+}
+
+/// strip identifiers / numbers from a diagnostic so signatures are stable
+pub fn norm(s: &str) -> String {
+    let mut o = String::new();
+    let mut last = ' ';
+    for ch in s.chars().take(100) {
+        let c = if ch.is_ascii_digit() { 'N' } else { ch };
+        if c == 'N' && last == 'N' {
+            continue;
+        }
+        o.push(c);
+        last = c;
+    }
+    o
+}
+
+pub fn meta(args: &Args) -> Value {
+    json!({
+        "level": "exploration",
+        "rule": "random well-typed core-language programs from the typed generator (features individually switched per case; listed per case and counted in coverage.counters as feature:*), run for n samples with a seeded dsp input stream on VM and WASM and compared bitwise (NaN==NaN) with the independent reference interpreter. Non-trivial = the reference output stream has at least two distinct values and both back ends ran; distinct = hash of program text + run parameters. Cases whose reference execution meets a situation the statement does not define (NaN as condition / logic operand, delay time outside 1..n-1) take no part in the verdict and are counted as unspecified:*.",
+        "assumptions": [
+            "the reference interpreter (harness/src/refsem) is the statement of C02 made executable; arithmetic and math builtins are Rust f64 operations",
+            "lambdas and function values are stateless by construction (state of closure instances created per sample is not defined by the statement)",
+            "sample rate 48000, `now` starts at 0"
+        ],
+        "floor": {"quick": 60, "thorough": 2000},
+        "case_timeout_s": 120,
+        "hang_is_violation": false,
+        "budget": {"quick": args.cases(400, 30000)},
+    })
+}
+
+pub fn gen_case(args: &Args, _idx: usize, rng: &mut Rng) -> Case {
+    let feat = feat_for(args, rng);
+    let prog = generate(rng, feat);
+    let src = prog.print();
+    let n = *rng.pick(&[8usize, 16, 24, 40, 64]);
+    Case { src, n, input_seed: rng.next(), finite_inputs: true, prog: Some(prog), expect: None }
+}
+
+pub fn run(args: &Args, out: &mut Out) {
+    let total = args.cases(400, 30000);
+    drive(args, out, total, |idx, rng| Some(gen_case(args, idx, rng)), exec);
+}
+
+pub fn replay(_args: &Args, out: &mut Out, case: &Value) {
+    replay_one::<Case>(out, case, exec);
+}
